@@ -170,6 +170,7 @@ func (f File) Validate() error {
 			allOpCodes[msg.OpCode] = msg.Name
 		}
 	}
+	unionMemberTypes := map[string]struct{}{}
 	for _, un := range f.Unions {
 		if _, ok := primitiveTypes[un.Name]; ok {
 			return fmt.Errorf("union shares primitive type name %s", un.Name)
@@ -183,17 +184,40 @@ func (f File) Validate() error {
 		}
 		customTypes[un.Name] = struct{}{}
 		unionNames := map[string]struct{}{}
-		for _, fd := range un.Fields {
+		for _, fd := range un.sortedFields() {
 			if _, ok := unionNames[fd.name()]; ok {
 				return fmt.Errorf("union %s has duplicate field name %s", un.Name, fd.name())
 			}
 			unionNames[fd.name()] = struct{}{}
+			// every branch defines a record type of its own
+			if _, ok := primitiveTypes[fd.name()]; ok {
+				return fmt.Errorf("union %s member shares primitive type name %s", un.Name, fd.name())
+			}
+			if _, ok := customTypes[fd.name()]; ok {
+				return fmt.Errorf("union %s member has duplicated name %s", un.Name, fd.name())
+			}
+			if _, ok := unionMemberTypes[fd.name()]; ok {
+				return fmt.Errorf("union %s member has duplicated name %s", un.Name, fd.name())
+			}
+			unionMemberTypes[fd.name()] = struct{}{}
+			memberFieldNames := map[string]struct{}{}
+			for _, mfd := range fd.fields() {
+				if _, ok := memberFieldNames[mfd.Name]; ok {
+					return fmt.Errorf("union %s member %s has duplicate field name %s", un.Name, fd.name(), mfd.Name)
+				}
+				memberFieldNames[mfd.Name] = struct{}{}
+			}
 		}
 		if un.OpCode != 0 {
 			if conflict, ok := allOpCodes[un.OpCode]; ok {
 				return fmt.Errorf("union %s has duplicate opcode %02x (duplicated in %s)", un.Name, un.OpCode, conflict)
 			}
 			allOpCodes[un.OpCode] = un.Name
+		}
+	}
+	for _, un := range f.Unions {
+		if _, ok := unionMemberTypes[un.Name]; ok {
+			return fmt.Errorf("union has duplicated name %s", un.Name)
 		}
 	}
 	allTypes := customTypes
@@ -208,7 +232,7 @@ func (f File) Validate() error {
 		}
 	}
 	for _, msg := range f.Messages {
-		for _, fd := range msg.Fields {
+		for _, fd := range msg.sortedFields() {
 			if err := typeDefined(fd.FieldType, allTypes); err != nil {
 				return err
 			}
